@@ -26,7 +26,7 @@ def c03(tier, seed):
 
 
 def c05(tier, seed):
-    return combine(fam_list(tier, ['core_q', 'frac_q', 'split_q', 'split5_q', 'residue_q', 'two_split_q'], ['core_t', 'split_t', 'two_q']) + [trace_family(tier, seed), cli_family(tier)], 'uncovered',
+    return combine(fam_list(tier, ['core_q', 'frac_q', 'split_q', 'split5_q', 'residue_q', 'two_split_q', 'order_q'], ['core_t', 'split_t', 'two_q']) + [trace_family(tier, seed), cli_family(tier)], 'uncovered',
                    'every cell ledger of the family, covered or not; non-trivial = uncovered ledgers (must be refused '
                    'naming security and date); covered ones must be accepted')
 
@@ -88,7 +88,7 @@ def c07(tier, seed):
 
 
 def _c07(tier, seed):
-    return combine([calendar_family()] + reports(tier, ['report_q'], ['report_t', 'report_one_t']), ['boundary_dates', 'slices'],
+    return combine([calendar_family()] + reports(tier, ['report_q', 'report_missing_q'], ['report_t', 'report_one_t']), ['boundary_dates', 'slices', 'slices_next_to_unconfigured_year'],
                    'every date 1899-12-31..2101-12-31 (exhaustive, one TLC state each) through TaxPeriod::from_date, the '
                    'all-years grouping and the single-year filter for the years Y-1, Y, Y+1; plus, for every report-family '
                    'ledger, calculate(Some(Y)) against the Y entry of calculate(None); non-trivial = 5/6 April and leap-day '
